@@ -51,10 +51,14 @@ def check_entries(rep, prog, ts_term):
     items = list_items(I, r)
     if items is None:
         raise AnalysisError("parse_ilog_data does not return a list")
-    loops = [L for L in I.loops.values() if L.func == IL + "parse_ilog_data"]
-    if len(loops) != 1 or loops[0].kind != "while":
-        raise AnalysisError("ILOG entries are not walked by one while loop")
-    L = loops[0]
+    # the entry loop is the one the per-entry output lines are produced in (wherever it lives: inline, helper or generator)
+    srcs = [i for i in items if i[0] == "rep"]
+    if len(srcs) != 1:
+        rep.fail(rule, where, "lines.append(...)", "not exactly one output line per (non-skipped) entry: %d line sources" % len(srcs))
+        return
+    L = srcs[0][1]
+    if L.kind != "while" or L.cond is None:
+        raise AnalysisError("ILOG entries are not walked by a while loop over the stream (%s loop)" % L.kind)
     idxk = [k for k in L.carried if k.endswith(".index")]
     if not idxk:
         raise AnalysisError("entry loop does not advance a stream")
@@ -153,8 +157,8 @@ def check_table(rep, prog):
     muts = [e for e in I2.events if e.kind in ("listmut", "list_setitem") and e.data[0] == e2]
     okf = len(apps) == 1 and not muts and len(items) == 1 and items[0][0] == "rep"
     if okf:
-        Lf = [l for l in apps[0].loops if l.func == IL + "PTETable._parse_header_file"]
-        okf = bool(Lf) and isinstance(Lf[0].iter, Op) and Lf[0].iter.op == "file" and not Lf[0].breaks
+        Lf = [l for l in apps[0].loops if isinstance(l.iter, Op) and l.iter.op == "file"]
+        okf = len(Lf) == 1 and items[0][1] is Lf[0] and not any(l.breaks for l in apps[0].loops)
     rep.check(okf, rule, "table entries are appended once per matching header-file line, in file order, never sorted", "PTETable._parse_header_file",
               "self.entries.append(entry)", "entries are not kept in header-file order")
     # field mapping of an entry line: (pattern, message, params, file, line)
